@@ -1037,3 +1037,50 @@ def unit_utilmod(inj, scratch):
     s = src(rel, scratch)
     inj.append(rel, H('utilmod.kani.rs'))
     return dict(functions=[fn_record(s, 'parse_filesize', 'K', how='whole real function; postcondition asserted on concrete witness literals in an appended harness')], dropped=[])
+
+
+# --------------------------------------------------------------------------------------------------
+# conforms(): regex cache keys of the string arm (C03 / C12)
+# --------------------------------------------------------------------------------------------------
+def unit_regexkeys(inj, scratch):
+    frag_begin(inj)
+    s = src('src/searcher.rs', scratch)
+    it = s.fn('conforms', impl='Searcher')
+    a, b0, b1 = s.arm(r'VariantType::String', s.body_span(it), what='conforms arm VariantType::String')
+    fns, rec_text = [], []
+    for opname in ['Eq', 'Ne', 'Rx', 'NotRx', 'Like', 'NotLike']:
+        a2, c0, c1 = s.arm(r'Op::' + opname, (b0, b1), what=f'conforms string arm / Op::{opname}')
+        m = re.search(r'self\.regex_cache\.get\(&(\w+)\)', s.mask[c0:c1])
+        if not m:
+            raise AnchorLost(f'conforms string arm Op::{opname}: no regex_cache.get(&key) lookup')
+        key = m.group(1)
+        ins = re.search(r'self\.regex_cache\.insert\((\w+),', s.mask[c0:c1])
+        if not ins or ins.group(1) != key:
+            raise AnchorLost(f'conforms string arm Op::{opname}: lookup key and insert key differ')
+        if key == 'val':
+            expr = 'val.clone()'
+        else:
+            lm = re.search(r'let\s+' + key + r'\s*=\s*', s.mask[c0:c1])
+            if not lm:
+                raise AnchorLost(f'conforms string arm Op::{opname}: definition of {key} not found')
+            st = c0 + lm.end()
+            en = s.mask.index(';', st)
+            expr = s.text[st:en]
+            if re.search(r'\bself\b|\bfield_value\b', expr):
+                raise AnchorLost(f'conforms string arm Op::{opname}: cache key depends on more than the pattern text')
+        fns.append(f'pub fn key_{opname.lower()}(val: String) -> String {{ {expr} }}')
+        rec_text.append(f'Op::{opname}: {expr}')
+    text = 'pub mod regexkeys {\nuse super::*;\n' + '\n'.join(fns) + '\n' + H('frag_regexkeys.kani.rs') + '\n}\n'
+    inj.new_file(FRAG_FILE, text)
+    r, d = frag_record('key_eq .. key_notlike', 'src/searcher.rs', 'fn conforms / String arm: the expression used as regex_cache key in each of the Op::Eq/Ne/Rx/NotRx/Like/NotLike sub-arms (lookup and insert must use the same key)',
+                       '\n'.join(rec_text), '\n'.join(fns), [], 'the regex compilation and matching themselves')
+    return dict(functions=[r], dropped=[d])
+
+
+def unit_variant(inj, scratch):
+    rel = 'src/function.rs'
+    s = src(rel, scratch)
+    inj.append(rel, H('function.kani.rs'))
+    return dict(functions=[fn_record(s, 'to_int', 'K', impl='Variant', how='whole real function on concrete witness literals'),
+                           fn_record(s, 'to_bool', 'K', impl='Variant', how='whole real function on concrete witness literals'),
+                           fn_record(s, 'from_signed_string', 'K', impl='Variant', how='whole real function on concrete witness literals')], dropped=[])
